@@ -16,7 +16,7 @@ META = {
              "points and one experiment repetition; distinct by input hash; non-trivial = the list contains a 0 or a 1 and another value"),
     "assumptions": ["both sides are library code; the oracle is their agreement as stated (heralded, stabilizer+projected, calibration, cycle length; 0-round exception)"],
     "floors": {
-        "quick": {"experiments": 380, "order_kernel_first": 80, "all_qubits_queried_first": 120, "order_kernel_between_two_circuits": 80, "ancillas_compared": 600, "zero_round_blocks": 80, "one_round_blocks": 80},
+        "quick": {"experiments": 380, "order_kernel_first": 80, "long_round_blocks": 3, "all_qubits_queried_first": 120, "order_kernel_between_two_circuits": 80, "ancillas_compared": 600, "zero_round_blocks": 80, "one_round_blocks": 80},
         "thorough": {"experiments": 3900, "ancillas_compared": 6000, "zero_round_blocks": 800, "one_round_blocks": 800},
     },
 }
@@ -140,6 +140,12 @@ def run_shard(shard: Dict[str, Any]) -> Acc:
     rng = random.Random(shard["seed"])
     for i in range(shard["n"]):
         inp = gen_input(rng)
+        if i == 0 and shard.get("index", 0) % 4 == 0:
+            # directed corner: one block with a large round count (a deep flattened relation chain), short chain descriptions only
+            inp.update({"description": "chain", "distance": 2, "data_state": inp["data_state"][:2], "ancilla_state": None,
+                        "rounds": [rng.choice([27, 29, 31, 33])] + ([2] if rng.random() < 0.5 else [])})
+            inp.pop("layout", None), inp.pop("involved", None), inp.pop("composite", None)
+            acc.count("long_round_blocks")
         r = inp["rounds"]
         acc.hist("rounds_length", len(r))
         acc.hist("distance", inp["distance"])
